@@ -15,6 +15,7 @@ from .ir import AnalysisBroken
 from .frontend import VERIF
 
 RULE = "SD.f-fixed-extent-array-access"
+LAST_PROG = {}
 SELFTEST = os.path.join(VERIF, "selftest", "fx_positive.c")
 EXPECT = {"bad_carry": "violation", "good_carry": "inside", "bad_fill": "violation", "good_fill": "inside",
           "sentinel": "undecided"}
@@ -172,6 +173,7 @@ def selftest(config):
 def check_fixed_extent(res, config, floor):
     n_self = selftest(config)
     prog = ir.Program(config)
+    LAST_PROG[config] = prog
     types = _types(prog)
     inside = undecided = funcs = 0
     und_sites = []
